@@ -50,7 +50,7 @@ func init() {
 		ID:    "C19",
 		Level: "model_checking",
 		Rule: "E4: (schedules) every unordered pair of the function alphabet (one entry per exported query/codec function of bitmap, bmtree, bitstr, bitword, sigbits + TailBitmap.Get/Get1) as a 2-thread program on SHARED inputs, all schedules with ≤P preemptions, and every triple over a 16-entry sub-alphabet with ≤P-1 preemptions; scheduling points are inserted automatically (vinstr, from the current working tree) before every statement that mentions a package-level variable, a method receiver or an alias of either; oracle: per-thread results equal the sequential results, exactly one outcome per program, package state unchanged; plus a COLD-START exploration in which every schedule of every same-function pair (thorough: and of every pair of the sub-alphabet) runs in a fresh process with inputs built by reference code, so that first-use windows of lazily initialised state are inside the schedules. " +
-			"(footprint, no scheduling) every alphabet entry × every variant of its parameter grid × 4 input sets with all slice/string arguments in read-only mmap'ed memory (any store faults), package-state deep hash unchanged by every call after a full warm-up pass, results identical in forward and reverse order and identical between the plain and the instrumented binary; every returned value is kept (the value itself, not a copy) and rendered again after the whole pass, after one element was appended to every returned slice, and - on fresh arguments - after every argument buffer was overwritten as a caller reusing its buffers does (a result must not be a view of argument memory); and every element of every returned slice is overwritten in place, after which every call is made once more on the same arguments and must give what it gave before (a result must not be memory the library reads again: a table, a cache, an argument). (race pass, supplementary) the same bodies free-running under -race in a fresh process. " +
+			"(footprint, no scheduling) every alphabet entry × every variant of its parameter grid × 4 input sets with all slice/string arguments in read-only mmap'ed memory (any store faults), package-state deep hash unchanged by every call after a full warm-up pass, results identical in forward and reverse order and identical between the plain and the instrumented binary; every returned value is kept (the value itself, not a copy) and rendered again after the whole pass, after one element was appended to every returned slice, and - on fresh arguments - after every argument buffer was overwritten as a caller reusing its buffers does (a result must not be a view of argument memory); and every element of every returned slice is overwritten in place, after which every call is made once more on the same arguments and must give what it gave before (a result must not be memory the library reads again: a table, a cache, an argument); and every call once more with every argument in a mapping of its own that ends in an inaccessible page - a string's last byte, a slice's last element of capacity is the last accessible byte - so that a read of even one byte beyond an argument faults. (race pass, supplementary) the same bodies free-running under -race in a fresh process. " +
 			"states = distinct schedules (choice-tree nodes), transitions = scheduling points executed; non-trivial schedules are those with at least one preemption.",
 		Assumptions: []string{
 			"preemption only at instrumented statements, at statement granularity, sequentially consistent memory; unsynchronised accesses elsewhere are left to the exact argument footprint and the (sampling) race pass",
@@ -305,6 +305,92 @@ func (a *arena) protect() {
 func (a *arena) free() {
 	syscall.Mprotect(a.mem, syscall.PROT_READ|syscall.PROT_WRITE)
 	syscall.Munmap(a.mem)
+}
+
+// guardAlloc gives every argument a mapping of its own that ends in an inaccessible
+// page: a slice's capacity (a string's length) ends exactly where the guard page
+// begins, so a read of even one byte beyond an argument faults - as does, once
+// protect() was called, any write to it.
+type guardAlloc struct {
+	maps  [][]byte
+	sizes []int
+}
+
+func (g *guardAlloc) take(n int) unsafe.Pointer {
+	page := syscall.Getpagesize()
+	size := (n + page - 1) / page * page
+	if size == 0 {
+		size = page
+	}
+	m, err := syscall.Mmap(-1, 0, size+page, syscall.PROT_READ|syscall.PROT_WRITE, syscall.MAP_ANON|syscall.MAP_PRIVATE)
+	if err != nil {
+		panic("harness: mmap: " + err.Error())
+	}
+	if err := syscall.Mprotect(m[size:], syscall.PROT_NONE); err != nil {
+		panic("harness: mprotect: " + err.Error())
+	}
+	g.maps = append(g.maps, m)
+	g.sizes = append(g.sizes, size)
+	if n == 0 {
+		return unsafe.Pointer(&m[size-16]) // an empty argument still gets a distinct base
+	}
+	return unsafe.Pointer(&m[size-n])
+}
+
+func (g *guardAlloc) u64s(s []uint64) []uint64 {
+	r := unsafe.Slice((*uint64)(g.take(8*(len(s)+c19Spare))), len(s)+c19Spare)
+	copy(r, s)
+	for i := len(s); i < len(r); i++ {
+		r[i] = 0xC5C5C5C5C5C5C5C5
+	}
+	return r[:len(s)]
+}
+func (g *guardAlloc) i32s(s []int32) []int32 {
+	r := unsafe.Slice((*int32)(g.take(4*(len(s)+c19Spare))), len(s)+c19Spare)
+	copy(r, s)
+	for i := len(s); i < len(r); i++ {
+		r[i] = -0x3a3a3a3b
+	}
+	return r[:len(s)]
+}
+func (g *guardAlloc) bytes(s []byte) []byte {
+	r := unsafe.Slice((*byte)(g.take(len(s)+c19Spare)), len(s)+c19Spare)
+	copy(r, s)
+	for i := len(s); i < len(r); i++ {
+		r[i] = c19Canary
+	}
+	return r[:len(s)]
+}
+func (g *guardAlloc) str(s string) string {
+	if len(s) == 0 {
+		return ""
+	}
+	b := unsafe.Slice((*byte)(g.take(len(s))), len(s)) // no spare: the string ends at the guard page
+	copy(b, s)
+	return unsafe.String(unsafe.SliceData(b), len(s))
+}
+func (g *guardAlloc) strs(s []string) []string {
+	r := unsafe.Slice((*string)(g.take(16*(len(s)+c19Spare))), len(s)+c19Spare)
+	for i, x := range s {
+		r[i] = g.str(x)
+	}
+	for i := len(s); i < len(r); i++ {
+		r[i] = "\xc5canary"
+	}
+	return r[:len(s)]
+}
+func (g *guardAlloc) protect() {
+	for i, m := range g.maps {
+		if err := syscall.Mprotect(m[:g.sizes[i]], syscall.PROT_READ); err != nil {
+			panic("harness: mprotect: " + err.Error())
+		}
+	}
+}
+func (g *guardAlloc) free() {
+	for _, m := range g.maps {
+		syscall.Munmap(m)
+	}
+	g.maps, g.sizes = nil, nil
 }
 
 const c19InputSets = 4
@@ -870,6 +956,27 @@ func c19Footprint(c *mc.Ctx) (digest string) {
 			c.Expect(int64(len(fwd[ci])))
 			c.Add("returned_values_rechecked_after_overwriting_the_arguments", int64(len(fwd[ci])))
 		}
+		// (5) no access beyond an argument: every argument in a mapping of its own that ends in an
+		// inaccessible page (and is read-only): reading one byte past a key or a bitmap faults
+		ga := &guardAlloc{}
+		gin := c19Build(set, ga)
+		ga.protect()
+		for ci := range alpha {
+			for k := range fwd[ci] {
+				if r := c19Safe(&alpha[ci], gin, k); r != fwd[ci][k] {
+					class := "guardpage"
+					if strings.Contains(r, "fault") || strings.Contains(r, "invalid memory address") {
+						class = "guardpage/access-beyond-argument"
+					}
+					c.Fail(8<<50|int64(set)<<40|int64(ci)<<20|int64(k), "guardpage", class, c19Case{Call: alpha[ci].Name, Variant: k, Input: set}, r, fwd[ci][k])
+				}
+				c.Count(1, 1)
+				c.Expect(1)
+				c.Add("calls_on_guard_page_arguments", 1)
+			}
+		}
+		c.Add("guard_page_mappings", int64(len(ga.maps)))
+		ga.free()
 		// (4) no returned slice is memory the library reads again: overwrite every returned slice in
 		// place (the caller owns it), then every call once more on the same arguments
 		ha3 := newHeapAlloc()
@@ -1144,6 +1251,19 @@ func c19Judge(kind string, raw json.RawMessage) (string, string, error) {
 			}
 		}
 		return "value as returned: " + clipS(fwd[ci][cs.Variant]), "value as returned: " + clipS(fwd[ci][cs.Variant]), nil
+	case "guardpage":
+		ci := find(cs.Call)
+		if ci < 0 {
+			return "", "", fmt.Errorf("unknown call %q", cs.Call)
+		}
+		want := c19Forward(alpha, c19Build(cs.Input, heapAlloc{}))[ci][cs.Variant]
+		debug.SetPanicOnFault(true)
+		defer debug.SetPanicOnFault(false)
+		ga := &guardAlloc{}
+		gin := c19Build(cs.Input, ga)
+		ga.protect()
+		defer ga.free()
+		return c19Safe(&alpha[ci], gin, cs.Variant), want, nil
 	case "resultpoke":
 		ci := find(cs.Call)
 		if ci < 0 {
